@@ -1,3 +1,403 @@
 package sym
 
-func registerMiscModels(ex *Exec) {}
+import (
+	"fmt"
+	"go/types"
+	"regexp/syntax"
+
+	"golang.org/x/tools/go/ssa"
+)
+
+func registerMiscModels(ex *Exec) {
+	m := ex.Models
+	m["regexp.MustCompile"] = modelRegexpCompile
+	m["(*regexp.Regexp).FindStringSubmatch"] = modelFindStringSubmatch
+	m["(*regexp.Regexp).MatchString"] = modelRegexpMatchString
+	ident := func(ex *Exec, s *State, cc *ssa.CallCommon, a []Value) (Value, *Fork, error) { return a[0], nil, nil }
+	m["internal/stringslite.Clone"] = ident
+	m["strings.Clone"] = ident
+	m["strconv.cloneString"] = ident
+	m["math/bits.Len"] = modelBitsLen(64)
+	m["math/bits.Len64"] = modelBitsLen(64)
+	m["math/bits.Len32"] = modelBitsLen(32)
+	m["math/bits.Len8"] = modelBitsLen(8)
+	m["math/bits.TrailingZeros64"] = modelBitsTZ(64)
+	m["math/bits.TrailingZeros"] = modelBitsTZ(64)
+	m["math/bits.TrailingZeros32"] = modelBitsTZ(32)
+}
+
+// ---------------------------------------------------------------- math/bits
+
+func modelBitsLen(w int) ModelFn {
+	return func(ex *Exec, s *State, cc *ssa.CallCommon, a []Value) (Value, *Fork, error) {
+		c := ex.Ctx
+		x := a[0].(*Term)
+		res := c.BV(64, 0)
+		for i := 0; i < w; i++ {
+			bit := c.Eq(c.Extract(x, i, i), c.BV(1, 1))
+			res = c.Ite(bit, c.BV(64, uint64(i+1)), res)
+		}
+		return res, nil, nil
+	}
+}
+
+func modelBitsTZ(w int) ModelFn {
+	return func(ex *Exec, s *State, cc *ssa.CallCommon, a []Value) (Value, *Fork, error) {
+		c := ex.Ctx
+		x := a[0].(*Term)
+		res := c.BV(64, uint64(w))
+		for i := w - 1; i >= 0; i-- {
+			bit := c.Eq(c.Extract(x, i, i), c.BV(1, 1))
+			res = c.Ite(bit, c.BV(64, uint64(i)), res)
+		}
+		return res, nil, nil
+	}
+}
+
+// ---------------------------------------------------------------- regexp (fragment)
+
+type reAtom struct {
+	ranges []rune // pairs lo,hi
+	quant  byte   // '1' '+' '?' '*'
+	group  int    // capture group index (0 = none)
+}
+
+type RegexV struct {
+	Pattern string
+	Atoms   []reAtom
+	NGroups int
+	Err     string
+}
+
+func (r *RegexV) Copy() Value { return r }
+
+func parseRegexFragment(pat string) *RegexV {
+	rv := &RegexV{Pattern: pat}
+	re, err := syntax.Parse(pat, syntax.Perl)
+	if err != nil {
+		rv.Err = err.Error()
+		return rv
+	}
+	re = re.Simplify()
+	var addClass func(x *syntax.Regexp, q byte, g int) bool
+	addClass = func(x *syntax.Regexp, q byte, g int) bool {
+		switch x.Op {
+		case syntax.OpCharClass:
+			rv.Atoms = append(rv.Atoms, reAtom{ranges: append([]rune{}, x.Rune...), quant: q, group: g})
+			return true
+		case syntax.OpLiteral:
+			if q != '1' && len(x.Rune) != 1 {
+				return false
+			}
+			for _, r := range x.Rune {
+				rv.Atoms = append(rv.Atoms, reAtom{ranges: []rune{r, r}, quant: q, group: g})
+			}
+			return true
+		}
+		return false
+	}
+	var walk func(x *syntax.Regexp, g int) bool
+	walk = func(x *syntax.Regexp, g int) bool {
+		switch x.Op {
+		case syntax.OpConcat:
+			for _, s := range x.Sub {
+				if !walk(s, g) {
+					return false
+				}
+			}
+			return true
+		case syntax.OpCapture:
+			if g != 0 {
+				return false
+			}
+			if x.Cap > rv.NGroups {
+				rv.NGroups = x.Cap
+			}
+			return walk(x.Sub[0], x.Cap)
+		case syntax.OpPlus:
+			return addClass(x.Sub[0], '+', g)
+		case syntax.OpStar:
+			return addClass(x.Sub[0], '*', g)
+		case syntax.OpQuest:
+			return addClass(x.Sub[0], '?', g)
+		case syntax.OpCharClass, syntax.OpLiteral:
+			return addClass(x, '1', g)
+		case syntax.OpEmptyMatch:
+			return true
+		}
+		return false
+	}
+	if !walk(re, 0) {
+		rv.Err = "pattern outside the modelled fragment (concatenation of capture groups over byte classes with + ? *)"
+		return rv
+	}
+	// pairwise disjoint classes => maximal munch is leftmost-first greedy matching
+	for i := range rv.Atoms {
+		for _, r := range rv.Atoms[i].ranges {
+			if r > 0x7f {
+				rv.Err = "non-ASCII class"
+				return rv
+			}
+		}
+		for j := i + 1; j < len(rv.Atoms); j++ {
+			if classesOverlap(rv.Atoms[i].ranges, rv.Atoms[j].ranges) {
+				rv.Err = "overlapping classes (backtracking semantics not modelled)"
+				return rv
+			}
+		}
+	}
+	if len(rv.Atoms) == 0 || (rv.Atoms[0].quant != '+' && rv.Atoms[0].quant != '1') {
+		rv.Err = "first atom must consume at least one character"
+	}
+	return rv
+}
+
+func classesOverlap(a, b []rune) bool {
+	for i := 0; i+1 < len(a); i += 2 {
+		for j := 0; j+1 < len(b); j += 2 {
+			if a[i] <= b[j+1] && b[j] <= a[i+1] {
+				return true
+			}
+		}
+	}
+	return false
+}
+
+func modelRegexpCompile(ex *Exec, s *State, cc *ssa.CallCommon, a []Value) (Value, *Fork, error) {
+	sv, ok := a[0].(StringV)
+	pat, ok2 := sv.Concrete()
+	if !ok || !ok2 {
+		return nil, nil, unsupported("regexp.MustCompile of non-constant pattern")
+	}
+	rv := parseRegexFragment(pat)
+	id := ex.newObject(s, rv, nil)
+	return Ptr{Obj: id}, nil, nil
+}
+
+func (ex *Exec) inClass(b *Term, ranges []rune) *Term {
+	c := ex.Ctx
+	var alts []*Term
+	for i := 0; i+1 < len(ranges); i += 2 {
+		lo, hi := uint64(ranges[i]), uint64(ranges[i+1])
+		if lo == hi {
+			alts = append(alts, c.Eq(b, c.BV(8, lo)))
+		} else {
+			alts = append(alts, c.BAnd(c.Cmp(OUle, c.BV(8, lo), b), c.Cmp(OUle, b, c.BV(8, hi))))
+		}
+	}
+	return c.BOr(alts...)
+}
+
+type reMatcher struct {
+	ex   *Exec
+	rv   *RegexV
+	s    []*Term
+	memo map[[3]int]*Term
+}
+
+// poss(i,pos,inStar): a match of atoms[i:] is possible starting at pos.
+func (m *reMatcher) poss(i, pos int, inStar bool) *Term {
+	c := m.ex.Ctx
+	if i == len(m.rv.Atoms) {
+		return c.True()
+	}
+	k := [3]int{i, pos, 0}
+	if inStar {
+		k[2] = 1
+	}
+	if t, ok := m.memo[k]; ok {
+		return t
+	}
+	at := m.rv.Atoms[i]
+	var here *Term = c.False()
+	if pos < len(m.s) {
+		here = m.ex.inClass(m.s[pos], at.ranges)
+	}
+	var res *Term
+	if inStar {
+		if pos < len(m.s) {
+			res = c.Ite(here, m.poss(i, pos+1, true), m.poss(i+1, pos, false))
+		} else {
+			res = m.poss(i+1, pos, false)
+		}
+	} else {
+		switch at.quant {
+		case '1':
+			if pos < len(m.s) {
+				res = c.BAnd(here, m.poss(i+1, pos+1, false))
+			} else {
+				res = c.False()
+			}
+		case '?':
+			if pos < len(m.s) {
+				res = c.Ite(here, m.poss(i+1, pos+1, false), m.poss(i+1, pos, false))
+			} else {
+				res = m.poss(i+1, pos, false)
+			}
+		case '+':
+			if pos < len(m.s) {
+				res = c.BAnd(here, m.poss(i, pos+1, true))
+			} else {
+				res = c.False()
+			}
+		case '*':
+			res = m.poss(i, pos, true)
+			m.memo[k] = res
+			return res
+		}
+	}
+	m.memo[k] = res
+	return res
+}
+
+// enumerate all (start, lengths) alternatives of the maximal-munch match.
+func (m *reMatcher) alts(start int) []struct {
+	cond *Term
+	ends []int
+} {
+	c := m.ex.Ctx
+	type alt = struct {
+		cond *Term
+		ends []int
+	}
+	var out []alt
+	var rec func(i, pos int, cond []*Term, ends []int)
+	rec = func(i, pos int, cond []*Term, ends []int) {
+		if i == len(m.rv.Atoms) {
+			out = append(out, alt{cond: c.BAnd(cond...), ends: append([]int{}, ends...)})
+			return
+		}
+		at := m.rv.Atoms[i]
+		minK, maxK := 0, len(m.s)-pos
+		switch at.quant {
+		case '1':
+			minK, maxK = 1, 1
+		case '?':
+			maxK = 1
+		case '+':
+			minK = 1
+		}
+		if maxK > len(m.s)-pos {
+			maxK = len(m.s) - pos
+		}
+		for k := minK; k <= maxK; k++ {
+			cc := append([]*Term{}, cond...)
+			for j := 0; j < k; j++ {
+				cc = append(cc, m.ex.inClass(m.s[pos+j], at.ranges))
+			}
+			// maximality: stopped because of the quantifier limit, the end, or a non-class char
+			limit := (at.quant == '1' || at.quant == '?') && k == 1
+			if !limit && pos+k < len(m.s) {
+				cc = append(cc, c.BNot(m.ex.inClass(m.s[pos+k], at.ranges)))
+			}
+			rec(i+1, pos+k, cc, append(ends, pos+k))
+		}
+	}
+	rec(0, start, nil, nil)
+	return out
+}
+
+func regexArg(ex *Exec, s *State, a []Value) (*RegexV, StringV, error) {
+	p, ok := a[0].(Ptr)
+	if !ok || p.Obj == 0 {
+		return nil, StringV{}, &goPanic{"nil *regexp.Regexp"}
+	}
+	rv, ok := s.Heap[p.Obj].V.(*RegexV)
+	if !ok {
+		return nil, StringV{}, unsupported("regexp object is not a modelled Regexp")
+	}
+	if rv.Err != "" {
+		return nil, StringV{}, unsupported("regexp %q: %s", rv.Pattern, rv.Err)
+	}
+	sv := a[1].(StringV)
+	if err := ex.requireASCII(s, sv.B, "regexp matching"); err != nil {
+		return nil, StringV{}, err
+	}
+	return rv, sv, nil
+}
+
+func modelFindStringSubmatch(ex *Exec, s *State, cc *ssa.CallCommon, a []Value) (Value, *Fork, error) {
+	rv, sv, err := regexArg(ex, s, a)
+	if err != nil {
+		return nil, nil, err
+	}
+	c := ex.Ctx
+	m := &reMatcher{ex: ex, rv: rv, s: sv.B, memo: map[[3]int]*Term{}}
+	f := &Fork{}
+	var noEarlier []*Term
+	strT := types.Typ[types.String]
+	for p := 0; p < len(sv.B); p++ {
+		for _, al := range m.alts(p) {
+			cond := c.BAnd(append(append([]*Term{}, noEarlier...), al.cond)...)
+			if cond.IsFalse() {
+				continue
+			}
+			// build [whole, group1..]
+			end := p
+			if len(al.ends) > 0 {
+				end = al.ends[len(al.ends)-1]
+			}
+			gs := make([]Value, rv.NGroups+1)
+			gs[0] = StringV{B: sv.B[p:end]}
+			gstart := make([]int, rv.NGroups+1)
+			gend := make([]int, rv.NGroups+1)
+			for g := range gstart {
+				gstart[g] = -1
+			}
+			pos := p
+			for i, at := range rv.Atoms {
+				if at.group > 0 {
+					if gstart[at.group] < 0 {
+						gstart[at.group] = pos
+					}
+					gend[at.group] = al.ends[i]
+				}
+				pos = al.ends[i]
+			}
+			for g := 1; g <= rv.NGroups; g++ {
+				if gstart[g] >= 0 {
+					gs[g] = StringV{B: sv.B[gstart[g]:gend[g]]}
+				} else {
+					gs[g] = StringV{}
+				}
+			}
+			av := &ArrayV{E: gs}
+			alt := Alt{Cond: cond}
+			alt.Ret = lazySlice{av: av, n: len(gs), et: strT}
+			f.Alts = append(f.Alts, alt)
+		}
+		noEarlier = append(noEarlier, c.BNot(m.poss(0, p, false)))
+	}
+	f.Alts = append(f.Alts, Alt{Cond: c.BAnd(noEarlier...), Ret: SliceV{}})
+	// materialise slices (objects must be created in the forked states; here all alternatives
+	// may share objects created in the parent because they are immutable results)
+	for i := range f.Alts {
+		if ls, ok := f.Alts[i].Ret.(lazySlice); ok {
+			id := ex.newObject(s, ls.av, types.NewArray(ls.et, int64(ls.n)))
+			f.Alts[i].Ret = SliceV{Obj: id, Len: ls.n, Cap: ls.n}
+		}
+	}
+	return nil, f, nil
+}
+
+type lazySlice struct {
+	av *ArrayV
+	n  int
+	et types.Type
+}
+
+func modelRegexpMatchString(ex *Exec, s *State, cc *ssa.CallCommon, a []Value) (Value, *Fork, error) {
+	rv, sv, err := regexArg(ex, s, a)
+	if err != nil {
+		return nil, nil, err
+	}
+	c := ex.Ctx
+	m := &reMatcher{ex: ex, rv: rv, s: sv.B, memo: map[[3]int]*Term{}}
+	var any []*Term
+	for p := 0; p < len(sv.B); p++ {
+		any = append(any, m.poss(0, p, false))
+	}
+	return c.BOr(any...), nil, nil
+}
+
+var _ = fmt.Sprintf
